@@ -303,7 +303,9 @@ var metas = [][]s3c.KV{nil, {{K: "x-amz-meta-color", V: "blue"}}, {{K: "x-amz-me
 	{{K: "Content-Encoding", V: "gzip"}, {K: "Expires", V: "Mon, 02 Jan 2034 15:04:05 GMT"}, {K: "x-amz-tagging", V: "t1=v%201&t2=v2"}},
 	{{K: "x-amz-checksum-crc32", V: "@crc32"}}, {{K: "x-amz-checksum-sha256", V: "@sha256"}, {K: "x-amz-meta-k", V: "v"}},
 	{{K: "Content-Type", V: "application/octet-stream"}}, {{K: "Content-Type", V: "binary/octet-stream"}, {K: "x-amz-meta-empty", V: ""}},
-	{{K: "Expires", V: "2034-01-02T15:04:05Z"}}, {{K: "Expires", V: "never"}, {K: "x-amz-meta-color", V: "red"}}}
+	{{K: "Expires", V: "2034-01-02T15:04:05Z"}}, {{K: "Expires", V: "never"}, {K: "x-amz-meta-color", V: "red"}},
+	// dates in the other forms HTTP knows, and in the preferred form with another zone name: stored text, not a time
+	{{K: "Expires", V: "Sunday, 06-Nov-94 08:49:37 GMT"}}, {{K: "Expires", V: "Sun Nov  6 08:49:37 1994"}}, {{K: "Expires", V: "Wed, 21 Oct 2015 07:28:00 UTC"}}}
 
 func withChecksums(m []s3c.KV, data []byte) []s3c.KV {
 	var out []s3c.KV
@@ -842,7 +844,7 @@ func opsGen(thorough bool) *rapid.Generator[[]op] {
 			o.Src = rapid.IntRange(0, len(keyNames)-1).Draw(t, "src")
 			o.Seed = rapid.Uint64Range(1, 1<<20).Draw(t, "seed")
 			o.Size = rapid.SampledFrom([]int{0, 1, 100, 4096, 65537, 1 << 20}).Draw(t, "size")
-			o.Meta = rapid.IntRange(0, 10).Draw(t, "meta")
+			o.Meta = rapid.IntRange(0, 13).Draw(t, "meta")
 			o.Who = rapid.SampledFrom([]int{0, 0, 0, 0, 1, 2}).Draw(t, "who")
 			if strings.HasPrefix(o.Kind, "btag") && kf.Open(btagFinding) {
 				ev.Exclude("known finding " + btagFinding + ": bucket tagging operations")
